@@ -45,12 +45,15 @@ ASSUMPTIONS = ["region -> bin range (region_to_extent) is given to the model as 
                "chunked engines: the model is evaluated with the single-span chunking; chunk-size independence is a theorem (C16_direct_chunks_independent) and is exercised with -k 1..3"]
 RESIDUE = ["number formatting by pandas to_csv (float_format % value, str(int)) is observed, not modelled; balanced/weight floats are compared at printed precision (exact text of `fmt % float`)",
            "np.dtype(value) validity and python int() spellings other than optionally signed decimals are outside parse_field_param's model",
-           "the fill-lower engine's chunk order for chunksize < nnz is compared as a multiset"]
+           "the fill-lower engine's chunk order for chunksize < nnz is compared as a multiset",
+           "`cooler cload pairs --comment-char` is accepted but not passed to read_csv (a comment line after the first record fails with or without it); "
+           "observed, outside the claim (decision of the lead): pairs files are generated with leading '#' header lines only",
+           "options audited but only observed for their pixel-level neutrality (not modelled): load/cload --mergebuf --max-merge --temp-dir --no-delete-temp "
+           "--storage-options --metadata --assembly --append, gz/stdin input, dump -o; float counts / extra bin columns / a cooler inside an HDF5 group are oracle-only"]
 ALLOW_AXIOMS = ()
 
 IMPORTS = "From Cooler Require Import Model.Dump."
 D18 = "dump-header-missing-when-no-pixel-in-row-range"
-CLOAD_CC = "cload-pairs-comment-char-ignored"
 
 
 # ============================================================ small coolers
@@ -1182,7 +1185,8 @@ POS_NAMES = ["chrom1", "pos1", "chrom2", "pos2"]
 
 def impl_cload(runner, cli, cool, case, pdir, k):
     """case["mode"]: file | gz | stdin (stdin through a real subprocess: CliRunner's stdin has no peek());
-    case["midcomment"]: a comment line after the first record; duplex / short / extra / post as for load"""
+    duplex / short / extra / post as for load.  Only leading '#' header lines are written: `cload pairs --comment-char` is
+    accepted by the CLI but not handed to read_csv (observed; outside the claim, see RESIDUE)"""
     import gzip
     import subprocess
     import sys
@@ -1192,8 +1196,6 @@ def impl_cload(runner, cli, cool, case, pdir, k):
     body = "## pairs format v1.0\n#columns: whatever\n" if case["header"] else ""
     for i, rec in enumerate(case["text"]):
         body += "\t".join(rec) + "\n"
-        if i == 0 and case.get("midcomment"):
-            body += case["midcomment"] + " a comment\n"
     inp = pdir / (f"p{k}.pairs" + (".gz" if mode == "gz" else ""))
     if mode == "gz":
         with gzip.open(inp, "wt") as f:
@@ -1412,10 +1414,6 @@ def run_cload(ctx, runner, cli, cools, thorough):
         for row, r in zip(jb["text"], jb["recs"]):
             row[5] = str(r["score"] / 4)                        # dyadic floats
         jb["fields"] = [f"score=6:dtype=float,agg={aggname}"]
-    # finding candidate: --comment-char is accepted but not passed on; exercised only once it is a registered known finding
-    from common import load_known
-    if any(kf.get("signature") == CLOAD_CC for kf in load_known() if kf.get("property") == PROP):
-        aud(midcomment="#", extra=["--comment-char", "#"], nomodel=True, nrec=4)
     # ---- model
     exprs, meta = [], []
     for jb in jobs:
@@ -1440,7 +1438,7 @@ def run_cload(ctx, runner, cli, cools, thorough):
         case = {"kind": "cload-pairs", "cool": cool.spec(), "layout": lay, "ncols": jb["ncols"], "zero_based": jb["zero_based"],
                 "symm": jb["symm"], "chunk": jb["chunk"], "header": jb["header"], "fields": jb["fields"], "text": jb["text"],
                 "extras": jb["extras"], "bins": bins_kind(cool, rng)}
-        for key in ("mode", "midcomment", "duplex", "short", "extra", "post", "aggs", "floats"):
+        for key in ("mode", "duplex", "short", "extra", "post", "aggs", "floats"):
             if key in jb:
                 case[key] = jb[key]
         identity = [lay[n] for n in POS_NAMES] == [0, 1, 2, 3]
@@ -1453,7 +1451,7 @@ def run_cload(ctx, runner, cli, cools, thorough):
             ctx.compare("cload pairs pixel table", case, None if ires is None else [list(x) for x in ires], None if mres is None else [list(x) for x in mres])
         bad = oracle_cload(cool, case, code, ires, pdir, k)
         if bad:
-            ctx.fail(case, bad, CLOAD_CC if (case.get("midcomment") and "--comment-char" in (case.get("extra") or [])) else None)
+            ctx.fail(case, bad, None)
     ctx.extra["cload_cases"] = len(jobs)
 
 
